@@ -10,7 +10,7 @@ import (
 // closed-form comparison and before every digest):
 //   - the arms of a union match are listed in alphabetical order of their case, the default last (the cases of a
 //     generated type switch are distinct concrete types: their order is immaterial);
-//   - if(not(C), A, B) is if(C, B, A);
+//   - if(not(C), A, B) is if(C, B, A); if(C, true, false) is C, if(C, A, false) is (C && A), if(C, true, B) is (C || B) …;
 //   - not((A eq B)) is (A ne B), not((A ne B)) is (A eq B), not(not(X)) is X;
 //   - (A eq B) is (B eq A) (operands in lexicographic order), likewise ne;
 //   - the fields of a record literal T{A: x, B: y} are listed in alphabetical order;
@@ -313,9 +313,26 @@ func rebuild(kw, inner string) string {
 		parts := splitTop(inner, ',')
 		if len(parts) == 3 {
 			cnd := strings.TrimSpace(parts[0])
+			a, bb := strings.TrimSpace(parts[1]), strings.TrimSpace(parts[2])
 			if strings.HasPrefix(cnd, "not(") && matchingClose(cnd, 3) == len(cnd)-1 {
-				return "if(" + cnd[4:len(cnd)-1] + "," + parts[2] + "," + parts[1] + ")"
+				cnd, a, bb = cnd[4:len(cnd)-1], bb, a
 			}
+			// a conditional between boolean constants is a boolean expression (same short-circuit evaluation)
+			switch {
+			case a == "true" && bb == "false":
+				return cnd
+			case a == "false" && bb == "true":
+				return "not(" + cnd + ")"
+			case bb == "false":
+				return "(" + cnd + " && " + a + ")"
+			case a == "true":
+				return "(" + cnd + " || " + bb + ")"
+			case a == "false":
+				return "(not(" + cnd + ") && " + bb + ")"
+			case bb == "true":
+				return "(not(" + cnd + ") || " + a + ")"
+			}
+			return "if(" + cnd + ", " + a + ", " + bb + ")"
 		}
 		return kw + inner + ")"
 	case "not(":
